@@ -459,6 +459,13 @@ func (b *Broker) proxyOut(
 		}
 	}
 
+	/* Don't leave the reading goroutine stuck sending us output nobody will
+	take; it closes och when it's done. */
+	go func() {
+		for range och {
+		}
+	}()
+
 	/* Some errors just indicate "normal" termination. */
 	if errors.Is(err, io.EOF) ||
 		errors.Is(err, context.Canceled) ||
